@@ -59,6 +59,7 @@ type BackendScript struct {
 	Trailers   http.Header
 	DeclareCase     int        // spelling of the names inside the Trailer declaration: 0 as set, 1 lower case, 2 upper case
 	DeclareTrailers bool       // announce trailers in the Trailer header instead of using http.TrailerPrefix
+	OKExtras   int             // gRPC / gRPC-Web success: 1 = also send an empty grpc-message, 2 = grpc-message "OK" and a grpc-status-details-bin of code 0 (both legal next to grpc-status: 0)
 	Bare       *BareHTTP       // bare HTTP failure instead of an RPC response
 	DeclLen    bool            // set Content-Length on un-enveloped responses
 	LenDelta   int             // lie: declared length = actual + delta
@@ -770,6 +771,20 @@ func grpcStatusInto(h http.Header, e *RPCError, prefix string) {
 	}
 }
 
+// okExtrasInto adds the status keys some gRPC servers send next to a successful status.
+func (s *BackendScript) okExtrasInto(tr http.Header) {
+	if s.Err != nil {
+		return
+	}
+	switch s.OKExtras {
+	case 1:
+		tr["Grpc-Message"] = []string{""}
+	case 2:
+		tr["Grpc-Message"] = []string{"OK"}
+		tr["Grpc-Status-Details-Bin"] = []string{"CAA"} // google.rpc.Status{code: 0}
+	}
+}
+
 func (b *Backend) respond(w http.ResponseWriter, r *http.Request) {
 	s, o := b.Script, b.Obs
 	if len(s.ForceHeaders) > 0 {
@@ -846,7 +861,7 @@ func (b *Backend) respond(w http.ResponseWriter, r *http.Request) {
 		}
 		return out
 	}
-	if s.DeclareTrailers && (o.Proto == "grpc") && !(s.Err != nil && nmsgs == 0 && s.TrailersOnly) {
+	if s.DeclareTrailers && (o.Proto == "grpc") {
 		var keys []string
 		for k := range s.Trailers {
 			keys = append(keys, k)
@@ -900,6 +915,7 @@ func (b *Backend) respond(w http.ResponseWriter, r *http.Request) {
 				tr[k] = v
 			}
 			grpcStatusInto(tr, s.Err, "")
+			s.okExtrasInto(tr)
 			b.setTrailers(w, tr)
 			return
 		}
@@ -908,6 +924,7 @@ func (b *Backend) respond(w http.ResponseWriter, r *http.Request) {
 			tr[k] = v
 		}
 		grpcStatusInto(tr, s.Err, "")
+		s.okExtrasInto(tr)
 		var tb bytes.Buffer
 		for _, k := range sortedKeys(tr) {
 			for _, v := range tr[k] {
